@@ -81,6 +81,8 @@ class Sequence(compound.CompoundQuery):
     def normalize(self):
         # Because the subqueries are in sequence, we can't do the fancy merging
         # that CompoundQuery does
+        if not self.subqueries:
+            return qcore.NullQuery
         return self.__class__([q.normalize() for q in self.subqueries],
                               self.slop, self.ordered, self.boost)
 
